@@ -70,7 +70,7 @@ theorem lookup_setStream (s : State) (a b : Nat) (st : Stream) :
     intro x _
     by_cases hx : x.1 = b
     · simp [hx, h]
-    · simp
+    · simp [hx]
 
 @[simp] theorem setStream_isServer (s : State) (a : Nat) (st : Stream) : (s.setStream a st).isServer = s.isServer := rfl
 @[simp] theorem setStream_conn (s : State) (a : Nat) (st : Stream) : (s.setStream a st).conn = s.conn := rfl
